@@ -413,8 +413,8 @@ def all_dirs_queries(rng, roots, defs, extra_lookups=None):
 
 
 def gen_case(rng, tier, flavor=None):
-    flavor = flavor or rng.choice(["plain", "plain", "plain", "cycle", "case", "dup_root", "wrongcase", "self", "twins"])
-    opts = {"print_p": 0.15}
+    flavor = flavor or rng.choice(["plain", "plain", "plain", "plain", "cycle", "case", "dup_root", "wrongcase", "self", "twins", "f7"])
+    opts = {"print_p": 0.15, "missing_p": 0.015, "badrel_p": 0.015, "fault_p": 0.01}
     if flavor == "cycle":
         opts["cycle_p"] = 0.25
     if flavor == "self":
@@ -441,6 +441,20 @@ def gen_case(rng, tier, flavor=None):
         defs.append(g)
     if flavor == "twins":
         defs.append(make_twin(rng, defs, rng.choice(defs), rng.random() < 0.6))
+    if flavor == "f7":
+        # case-variant siblings with one version; Y refers to one of them; the other one refers to Y (open finding F7)
+        d = roots[0] + [rng.choice(SUBS[:2]) for _ in range(rng.choice([0, 1]))]
+        up, lo = rng.choice([("Wx", "wx"), ("Wx", "wX"), ("WX", "Wx")])
+        ver = rng.choice([(1, 0), (0, 1), (2, 3)])
+        ns_name = rel_ns(roots[0], {"dir": d})
+        target, other = (lo, up) if rng.random() < 0.7 else (up, lo)
+        i = len(defs)
+        ref_t = [target, ns_name + "." + target][rng.randrange(2)]
+        defs.append(mkfile(i, d, other, ver[0], ver[1], [["ref", "Yq", 1, 0, 0]] + ([["plain", 8]] if rng.random() < 0.5 else [])))
+        defs.append(mkfile(i + 1, d, target, ver[0], ver[1], [["plain", 16]]))
+        defs.append(mkfile(i + 2, d, "Yq", 1, 0, [["ref", ref_t, ver[0], ver[1], rng.choice([0, 0, 2])]]))
+        if defs and rng.random() < 0.5:
+            defs.append(mkfile(i + 3, d, "Zq", 1, 0, [["ref", "Yq", 1, 0, 0], ["ref", other, ver[0], ver[1], 0]]))
     qs = all_dirs_queries(rng, roots, defs)
     return {"files": defs, "queries": qs, "flavor": flavor, "dirs": roots}
 
@@ -611,7 +625,7 @@ def known_finding(case, obs, known):
     if pf and pf.startswith("standalone:") and has_case_variants(case):
         for k in known:
             if k["id"] == "F7":
-                return "F7 the nested/ordered result for a definition differs from its own read when case-variant siblings exist (%s)" % pf
+                return "F7 the nested/ordered result for a definition differs from its own read when case-variant siblings with one version exist"
     return None
 
 
